@@ -167,44 +167,55 @@ theorem C14_days_eq_counting (y m d : Nat) (hy : 1 ≤ y) (hm1 : 1 ≤ m) (hm2 :
   daysFromCivil_eq_specDays y m d hy hm1 hm2 hd
 
 /-- *formatting then parsing is the identity up to the format's precision* — DateTime (RFC 3339,
-    milliseconds): for every instant of the years 1 … 9999, whatever offset the timestamp carries,
-    `format` succeeds and `parse` of its output is the same instant truncated to the millisecond
-    (in UTC) -/
-theorem C14_ts_datetime_roundtrip (t : Ts) (h1 : -62135596800 ≤ t.unix) (h2 : t.unix ≤ 253402300799)
+    milliseconds): for every instant of the years 0000 … 9999 (the property asks for 1 … 9999), whatever
+    offset the timestamp carries, `format` succeeds and `parse` of its output is the same instant truncated
+    to the millisecond (in UTC) -/
+theorem C14_ts_datetime_roundtrip (t : Ts) (h1 : -62167219200 ≤ t.unix) (h2 : t.unix ≤ 253402300799)
     (hn : t.nanos < 1000000000) :
     ∃ txt, formatDateTime t = some txt ∧
       parseRfc3339 txt = some ⟨t.unix, t.nanos / 1000000 * 1000000, 0⟩ :=
   datetime_roundtrip t h1 h2 hn
 
 /-- the same for HttpDate (the RFC1123 description, seconds precision) -/
-theorem C14_ts_httpdate_roundtrip (t : Ts) (h1 : -62135596800 ≤ t.unix) (h2 : t.unix ≤ 253402300799) :
+theorem C14_ts_httpdate_roundtrip (t : Ts) (h1 : -62167219200 ≤ t.unix) (h2 : t.unix ≤ 253402300799) :
     ∃ txt, formatHttpDate t = some txt ∧ parseHttpDate txt = some ⟨t.unix, 0, 0⟩ :=
   httpdate_roundtrip t h1 h2
 
 /-- *a timestamp keeps its instant whatever UTC offset it was expressed in*, parsing half: an
     RFC 3339 text `YYYY-MM-DDTHH:MM:SS[.mmm]±hh:mm` with a valid date-time of the years 1 … 9999 and
-    any offset in [−23:59, +23:59] is parsed to the instant local − offset (`rfc3339Instant`, stated
-    with the counting calendar of the specification), the written fraction and that offset -/
+    any offset in [−23:59, +23:59] denotes the instant local − offset (`rfc3339Instant`, stated with the
+    counting calendar of the specification). It is parsed to exactly that instant, the written fraction
+    and that offset whenever the instant lies in the years 0000 … 9999 of UTC (which covers every instant
+    of the property's quantifier, years 1 … 9999); a local time within a day of either end whose instant
+    falls outside is REFUSED (since repair 62f4e8c: neither text form can express such an instant — until
+    then it was accepted and `Timestamp::format` failed on the value, finding F-xml-7). Nothing in between:
+    the statement is an equation for every such text. -/
 theorem C14_ts_instant_preserved_parse (Y m d H Mi S : Nat) (ms : Option Nat) (neg : Bool) (oh om : Nat)
     (hdate : validDate Y m d = true) (hH : H ≤ 23) (hMi : Mi ≤ 59) (hS : S ≤ 59)
     (hms : ∀ x, ms = some x → x < 1000) (hoh : oh ≤ 23) (hom : om ≤ 59) :
     parseRfc3339 (rfc3339Text Y m d H Mi S ms neg oh om) =
-      some ⟨rfc3339Instant Y m d H Mi S neg oh om, fracNanosOf ms, offsetSeconds neg oh om⟩ :=
+      if -62167219200 ≤ rfc3339Instant Y m d H Mi S neg oh om ∧ rfc3339Instant Y m d H Mi S neg oh om ≤ 253402300799
+      then some ⟨rfc3339Instant Y m d H Mi S neg oh om, fracNanosOf ms, offsetSeconds neg oh om⟩
+      else none :=
   parse_rfc3339Text Y m d H Mi S ms neg oh om hdate hH hMi hS hms hoh hom
 
 /-- … formatting half: the parsed value is written (DateTime and HttpDate) as a text that parses to
-    the same instant with offset 0, i.e. `format` emits that instant in UTC (provided the instant
-    itself lies in the years 1 … 9999; a local time within a day of either end may not) -/
+    the same instant with offset 0, i.e. `format` emits that instant in UTC — for every text the parser
+    accepts (`h1`, `h2`: the instant lies in the years 0000 … 9999, which by the parsing half is exactly
+    when the text is accepted; before repair 62f4e8c this needed the years 1 … 9999 as an extra hypothesis,
+    because accepted texts near either end could not be written) -/
 theorem C14_ts_instant_preserved (Y m d H Mi S : Nat) (ms : Option Nat) (neg : Bool) (oh om : Nat)
     (hdate : validDate Y m d = true) (hH : H ≤ 23) (hMi : Mi ≤ 59) (hS : S ≤ 59)
     (hms : ∀ x, ms = some x → x < 1000) (hoh : oh ≤ 23) (hom : om ≤ 59)
-    (h1 : -62135596800 ≤ rfc3339Instant Y m d H Mi S neg oh om)
+    (h1 : -62167219200 ≤ rfc3339Instant Y m d H Mi S neg oh om)
     (h2 : rfc3339Instant Y m d H Mi S neg oh om ≤ 253402300799) :
     ∃ t, parseRfc3339 (rfc3339Text Y m d H Mi S ms neg oh om) = some t ∧
       t.unix = rfc3339Instant Y m d H Mi S neg oh om ∧
       (∃ txt, formatDateTime t = some txt ∧ parseRfc3339 txt = some ⟨t.unix, fracNanosOf ms, 0⟩) ∧
       (∃ txt, formatHttpDate t = some txt ∧ parseHttpDate txt = some ⟨t.unix, 0, 0⟩) := by
-  refine ⟨_, parse_rfc3339Text Y m d H Mi S ms neg oh om hdate hH hMi hS hms hoh hom, rfl, ?_, ?_⟩
+  have hp := parse_rfc3339Text Y m d H Mi S ms neg oh om hdate hH hMi hS hms hoh hom
+  rw [if_pos ⟨h1, h2⟩] at hp
+  refine ⟨_, hp, rfl, ?_, ?_⟩
   · have hn : fracNanosOf ms < 1000000000 := by
       cases ms with
       | none => simp [fracNanosOf]
@@ -216,6 +227,24 @@ theorem C14_ts_instant_preserved (Y m d H Mi S : Nat) (ms : Option Nat) (neg : B
     have := datetime_roundtrip ⟨rfc3339Instant Y m d H Mi S neg oh om, fracNanosOf ms, offsetSeconds neg oh om⟩ h1 h2 hn
     simpa only [hr] using this
   · exact httpdate_roundtrip ⟨rfc3339Instant Y m d H Mi S neg oh om, fracNanosOf ms, offsetSeconds neg oh om⟩ h1 h2
+
+/-- *an accepted timestamp can always be written* (FULL since repair 62f4e8c; until then false for
+    `9999-12-31T23:59:59-01:00`, finding F-xml-7 `xml-ts-format-panic`): whatever of the three forms a
+    text was accepted in by `Timestamp::parse`, and whatever the text, all three arms of
+    `Timestamp::format` succeed on the value — `utils::format::fmt_timestamp`, which unwraps that result
+    in the XML and header serialisers, cannot panic on a timestamp that came out of `parse`. No
+    hypothesis on the text. -/
+theorem C14_ts_parse_format_total (f : TsFormat) (txt : Bytes) (t : Ts) (h : Ts.parse f txt = some t) :
+    (∃ a, formatDateTime t = some a) ∧ (∃ b, formatHttpDate t = some b) ∧ (∃ c, formatEpochSeconds t = some c) :=
+  parse_format_total f h
+
+/-- … and for the `DateTime` form the written text is again one the parser accepts, with the same
+    instant: every accepted RFC 3339 text — any spelling `time` reads, any offset — is re-emitted as a
+    text that parses to that instant truncated to the millisecond, in UTC -/
+theorem C14_ts_datetime_accepted_roundtrip (txt : Bytes) (t : Ts) (h : parseRfc3339 txt = some t) :
+    ∃ out, formatDateTime t = some out ∧ parseRfc3339 out = some ⟨t.unix, t.nanos / 1000000 * 1000000, 0⟩ := by
+  obtain ⟨_, h1, h2⟩ := parseRfc3339_some h
+  exact datetime_roundtrip t h1 h2 (parseRfc3339_nanos_lt h)
 
 /-- *formatting then parsing is the identity* — EpochSeconds, in full (after repair 4f99c94): for
     every instant of the years 1 … 9999 at NANOSECOND resolution, before and after 1970, whatever
@@ -258,7 +287,22 @@ example : validDate 2020 1 1 = true := by decide
 example : rfc3339Instant 2020 1 1 8 0 0 false 8 0 = 1577836800 := by decide
 example : rfc3339Text 2020 1 1 8 0 0 none false 8 0 =
     [50, 48, 50, 48, 45, 48, 49, 45, 48, 49, 84, 48, 56, 58, 48, 48, 58, 48, 48, 43, 48, 56, 58, 48, 48] := by decide
-example : (-62135596800 : Int) ≤ 1577836800 ∧ (1577836800 : Int) ≤ 253402300799 := by decide
+example : (-62167219200 : Int) ≤ 1577836800 ∧ (1577836800 : Int) ≤ 253402300799 := by decide
+
+/-! non-vacuity of the year check: `9999-12-31T22:59:59-01:00` is the last second of year 9999 and is accepted
+    (and written `9999-12-31T23:59:59.000Z`); one hour later, `9999-12-31T23:59:59-01:00`, is refused;
+    `0000-01-01T01:00:00+01:00` is the first second of year 0000; `0000-01-01T00:59:59+01:00` is refused -/
+example : validDate 9999 12 31 = true := by decide
+example : rfc3339Instant 9999 12 31 22 59 59 true 1 0 = 253402300799 := by decide +kernel
+example : rfc3339Instant 9999 12 31 23 59 59 true 1 0 = 253402304399 := by decide +kernel
+example : (parseRfc3339 (rfc3339Text 9999 12 31 22 59 59 none true 1 0)).bind formatDateTime =
+    some [57, 57, 57, 57, 45, 49, 50, 45, 51, 49, 84, 50, 51, 58, 53, 57, 58, 53, 57, 46, 48, 48, 48, 90] := by
+  decide +kernel
+example : parseRfc3339 (rfc3339Text 9999 12 31 23 59 59 none true 1 0) = none := by decide +kernel
+example : parseRfc3339 [48, 48, 48, 48, 45, 48, 49, 45, 48, 49, 84, 48, 49, 58, 48, 48, 58, 48, 48, 43, 48, 49, 58, 48, 48] =
+    some ⟨-62167219200, 0, 3600⟩ := by decide +kernel
+example : parseRfc3339 [48, 48, 48, 48, 45, 48, 49, 45, 48, 49, 84, 48, 48, 58, 53, 57, 58, 53, 57, 43, 48, 49, 58, 48, 48] =
+    none := by decide +kernel
 
 /-! non-vacuity, EpochSeconds: half a second before 1970 is written `-0.5`; the first instant of year 1
     is written `-62135596800`; 1970-01-01T00:00:01.118Z (the old `f64` text was `1.1179999999999999`)
